@@ -575,16 +575,21 @@ func (cr *caseRun) run() {
 	// tubes the program opens itself are accepted by the peer and left to its Stop
 	progDone := make(chan struct{})
 	defer close(progDone)
-	for _, s := range []string{"a", "b"} {
-		go func(ch chan tubes.Tube) {
+	// … every second one of them is closed by the acceptor at once, so that its FIN follows its answer
+	// to the request back to back (the opener's initiation goroutine may not have finished yet)
+	for k, s := range []string{"a", "b"} {
+		go func(ch chan tubes.Tube, rng *Rng) {
 			for {
 				select {
-				case <-ch:
+				case t := <-ch:
+					if rng.Chance(1, 2) {
+						go t.Close()
+					}
 				case <-progDone:
 					return
 				}
 			}
-		}(accepted[s])
+		}(accepted[s], NewRng(p.yseed*2+uint64(k)))
 	}
 
 	// the program
@@ -757,7 +762,20 @@ func (cr *caseRun) createAndClose(gi int, side string, rel bool, delayUs int, m 
 	if !cr.record(gi, "c", name, func() string { return errClass(t.Close()) }) {
 		return false
 	}
-	return cr.record(gi, "wc", name, func() string { t.WaitForClose(); return "ok" })
+	if !cr.record(gi, "wc", name, func() string { t.WaitForClose(); return "ok" }) {
+		return false
+	}
+	// after the close a Read returns (end of stream, or what was buffered): it never blocks
+	return cr.record(gi, "r", name, func() string {
+		n, err := t.Read(make([]byte, 16))
+		if n > 0 {
+			return fmt.Sprintf("data %d %s", n, errClass(err))
+		}
+		if err == nil {
+			return "empty"
+		}
+		return errClass(err)
+	})
 }
 
 func (cr *caseRun) render(tr []trEntry) {
